@@ -562,7 +562,7 @@ def match(got, want):
     return None
 
 
-def check_paths(ctx, rule, qual, paths, ret=None, skip_kinds=(), only_kinds=None, require=()):
+def check_paths(ctx, rule, qual, paths, ret=None, skip_kinds=(), only_kinds=None, require=(), sweep=False):
     """run the checker over every path of `qual`, recording one (soft) obligation per distinct typed sink found.
     `require`: iterable of sets of sink kinds; for each set at least one sink of one of its kinds must exist in the function,
     else an UNDECIDED obligation is recorded (a role rule that silently finds no sink would pass vacuously)."""
@@ -593,6 +593,8 @@ def check_paths(ctx, rule, qual, paths, ret=None, skip_kinds=(), only_kinds=None
                 continue
             key = "%s|%s|%s" % (qual, kind, desc)
             kinds_seen.add(kind)
+            if sweep and ok is None:
+                continue          # a package-wide sweep reports definite clashes only
             if (key, ok, detail) in seen:
                 continue
             seen.add((key, ok, detail))
